@@ -31,6 +31,7 @@ untouched.  (Found necessary by the `--retvar` false-alarm probe of tools/refact
 from __future__ import annotations
 
 import ast
+import copy
 
 
 def _loads(fn: ast.AST, name: str) -> int:
@@ -294,6 +295,58 @@ def _always_exits(stmts: list[ast.stmt]) -> bool:
     return False
 
 
+def _tailify(stmts: list[ast.stmt], mk) -> list[ast.stmt] | None:
+    """Rewrite every `return X` of a statement list into `mk(X)` (an assignment to the caller's target, or an expression
+    statement) - possible without changing control flow only when each return is in TAIL position: the last statement of the
+    list, or of a branch / try body / handler / with body that is itself the last statement of a tail block.  Returns None
+    when some return is elsewhere (inside a loop, followed by code, in a finally)."""
+    if not stmts:
+        return []
+    head, last = stmts[:-1], stmts[-1]
+    if any(isinstance(x, ast.Return) for st in head for x in ast.walk(st)):
+        return None
+    if isinstance(last, ast.Return):
+        r = mk(last.value, last)
+        return head + ([r] if r is not None else [])
+    if not any(isinstance(x, ast.Return) for x in ast.walk(last)):
+        return list(stmts)
+    if isinstance(last, ast.If):
+        b, o = _tailify(last.body, mk), _tailify(last.orelse, mk)
+        if b is None or o is None:
+            return None
+        new = copy.copy(last)
+        new.body, new.orelse = b or [ast.copy_location(ast.Pass(), last)], o
+        return head + [new]
+    if isinstance(last, (ast.With, ast.AsyncWith)):
+        b = _tailify(last.body, mk)
+        if b is None:
+            return None
+        new = copy.copy(last)
+        new.body = b or [ast.copy_location(ast.Pass(), last)]
+        return head + [new]
+    if isinstance(last, ast.Try):
+        if any(isinstance(x, ast.Return) for st in last.finalbody for x in ast.walk(st)):
+            return None
+        if last.orelse and any(isinstance(x, ast.Return) for st in last.body for x in ast.walk(st)):
+            return None
+        b = _tailify(last.body, mk) if not last.orelse else list(last.body)
+        o = _tailify(last.orelse, mk) if last.orelse else []
+        hs = []
+        for h in last.handlers:
+            hb = _tailify(h.body, mk)
+            if hb is None:
+                return None
+            nh = copy.copy(h)
+            nh.body = hb or [ast.copy_location(ast.Pass(), h)]
+            hs.append(nh)
+        if b is None or o is None:
+            return None
+        new = copy.copy(last)
+        new.body, new.orelse, new.handlers = b or [ast.copy_location(ast.Pass(), last)], o, hs
+        return head + [new]
+    return None
+
+
 def _has_early_return(fn: ast.FunctionDef) -> bool:
     return any(r is not fn.body[-1] for r in ast.walk(fn) if isinstance(r, ast.Return))
 
@@ -305,6 +358,20 @@ class _Rename(ast.NodeTransformer):
     def visit_Name(self, node):
         if node.id in self.mapping:
             node.id = self.mapping[node.id]
+        return node
+
+
+class _RenameExceptTargets(ast.NodeTransformer):
+    """_Rename, but the targets of the synthesised result assignments stay the caller's names."""
+
+    def __init__(self, mapping: dict[str, str]):
+        self.mapping = mapping
+
+    def visit_Name(self, node):
+        if getattr(node, "_sa_result", False):
+            return node
+        if node.id in self.mapping:
+            return ast.copy_location(ast.Name(id=self.mapping[node.id], ctx=node.ctx), node)
         return node
 
 
@@ -387,9 +454,27 @@ def inline_single_use_helpers(trees: list[ast.Module], leaf_first: bool = True) 
                                 out.append(st)
                                 continue
                             early = _has_early_return(h)
+                            tailified = None
                             if early and not isinstance(st, ast.Return):
-                                out.append(st)  # early returns survive only when the call itself is in return position
-                                continue
+                                # returns that are all in tail position can become assignments to the caller's target
+                                if isinstance(st, ast.Assign):
+                                    tg = st.targets
+
+                                    def mk(v, at, tg=tg):
+                                        tgs = copy.deepcopy(tg)
+                                        for t_ in tgs:
+                                            for n_ in ast.walk(t_):
+                                                if isinstance(n_, ast.Name):
+                                                    n_._sa_result = True  # the caller's name: not renamed with the helper's locals
+                                        return ast.copy_location(ast.Assign(targets=tgs, value=v if v is not None else ast.Constant(value=None), type_comment=None), at)
+                                else:
+                                    def mk(v, at):
+                                        return ast.copy_location(ast.Expr(value=v), at) if v is not None and not isinstance(v, (ast.Name, ast.Constant)) else None
+                                hb0 = h.body[1:] if h.body and isinstance(h.body[0], ast.Expr) and isinstance(h.body[0].value, ast.Constant) and isinstance(h.body[0].value.value, str) else h.body
+                                tailified = _tailify([copy.deepcopy(x) for x in hb0], mk)
+                                if tailified is None or (isinstance(st, ast.Assign) and not _always_exits(hb0)):
+                                    out.append(st)  # other early returns survive only when the call itself is in return position
+                                    continue
                             params = _simple_params(h) or []
                             if len(call.args) > len(params):
                                 out.append(st)
@@ -425,6 +510,13 @@ def inline_single_use_helpers(trees: list[ast.Module], leaf_first: bool = True) 
                             body = [copy.deepcopy(s) for s in h.body]
                             if body and isinstance(body[0], ast.Expr) and isinstance(body[0].value, ast.Constant) and isinstance(body[0].value.value, str):
                                 body = body[1:]
+                            if tailified is not None:
+                                # the assignment targets created by mk() are the CALLER's names: rename only what the helper owns
+                                body = [_RenameExceptTargets(mapping).visit(s) for s in tailified]
+                                out.extend(binds + body)
+                                done.add(h.name)
+                                count += 1
+                                continue
                             body = [_Rename(mapping).visit(s) for s in body]
                             tail: list[ast.stmt] = []
                             ret_val = None
